@@ -76,7 +76,7 @@ var c18Alphabet = []c18Op{
 	{"upsert", "l=b", `{"m":{"z":"a"}}`},
 }
 
-var c18Stores = []string{"ref", "reflect-map", "node-map", "reflect-slice", "node-slice"}
+var c18Stores = []string{"ref", "reflect-map", "node-map", "reflect-slice", "node-slice", "reflect-struct", "node-struct", "reflect-structmap", "node-structmap"}
 
 func (p *c18) Bounds(tier string) map[string]interface{} {
 	d := 3
@@ -333,7 +333,10 @@ func c18FindAll(c c18Case, inst *c18Inst, site, desc string) []eng.StepViol {
 		if xerr != nil {
 			return []eng.StepViol{{Sig: site + "/read-after/error", What: fmt.Sprintf("%s; then export of %s: %v", desc, p, xerr)}}
 		}
-		o := model.CanonOpts{IgnoreEntryOrder: true}
+		o := model.CanonOpts{IgnoreEntryOrder: true, EmptyListAbsent: env.canonOpts().EmptyListAbsent}
+		if store.IsStructImpl(env.st.Name()) {
+			model.StripZeros(ep.defs(m), wt, r.T)
+		}
 		if kd, w := model.Diff(ep.defs(m), wt, r.T, o, p); kd != "" {
 			return []eng.StepViol{{Sig: site + "/read-after/" + kd, What: fmt.Sprintf("%s; then export of %s: %s", desc, p, w)}}
 		}
